@@ -21,6 +21,10 @@ func (p *Prog) SourceName(v ssa.Value) string {
 		if x.Comment != "" && x.Comment != "complit" && x.Comment != "new" {
 			return x.Comment
 		}
+	case *ssa.Phi:
+		if x.Comment != "" {
+			return x.Comment
+		}
 	}
 	idx := 0
 	pos := v.Pos()
